@@ -21,9 +21,7 @@ def run(res, tier):
         tlc_ok(r, "L4Timed exact")
         cov["states"] += r["distinct"]
         cov["transitions"] += r["generated"]
-        rs = run_tlc(tmp, "L4Timed.tla", "L4Timed_seconds.cfg", timeout=600)
-        if not any("NotEarly" in e for e in rs["errors"]):
-            raise Inconclusive("self-test: TLC no longer finds the early timeout with a deadline stored in whole seconds")
+        rs = run_tlc_expect(tmp, "L4Timed.tla", "L4Timed_seconds.cfg", ["NotEarly"], "TLC no longer finds the early timeout with a deadline stored in whole seconds", timeout=600)
         cov["model_selftest"] = "NotEarly fails in L4Timed with Store=seconds (the pinned commit's packetConn), holds with Store=exact"
         # (c) scaled real time on the real Server.handle / servePacket, TCP and UDP
         g = run_tlc(tmp, "L4TimedGrid.tla", f"L4TimedGrid_{tier}.cfg", workers=1, timeout=300)
